@@ -711,6 +711,157 @@ func vfRunnerCase(f []string) string {
 	return "runner " + strings.Join(log, " ")
 }
 
+// estab <lns|lac> <step>...: a complete control connection through the real Dispatch and the real handlers, with
+// LATE COPIES.  Steps (peer -> us, Ns taken in order, Nr = everything we have sent so far):
+//   lns: sccrq scccn icrq iccn hello cdn stop        lac: sccrp icrp hello cdn stop   (lac starts with StartLACSession)
+//   r<k>: the wire bytes of the k-th peer message of this case once more (a duplicate the network delayed)
+// After every step: T<tunnels registered> S<sessions in them> D<distinct non-ZLB messages we have written>.
+// Exactly-once delivery to the protocol machine = a late copy changes none of the three.
+func vfEstabCase(f []string) string {
+	c := New(logger.Get("l2tp"))
+	peer := net.IPv4(10, 0, 0, 2).To4()
+	local := net.IPv4(10, 0, 0, 1).To4()
+	var mu sync.Mutex
+	seen := map[string]bool{}
+	var lastNs uint16
+	c.SetSendControlFn(func(localIP, peerIP net.IP, lp, pp uint16, h l2tppkt.Header, body []byte) error {
+		if len(body) == 0 || !h.IsControl { // ZLBs and PPP data frames (LCP started by ICCN) are not counted
+			return nil
+		}
+		mu.Lock()
+		seen[fmt.Sprintf("%d/%x", h.Ns, body)] = true
+		if h.Ns+1 > lastNs {
+			lastNs = h.Ns + 1
+		}
+		mu.Unlock()
+		return nil
+	})
+	c.SetLNSConfigResolver(func(string) (LNSConfig, bool) {
+		return LNSConfig{LocalHostname: "lns", ReceiveWindowSize: 16, HelloInterval: time.Hour}, true
+	})
+	defer func() {
+		c.mu.RLock()
+		var ts []*Tunnel
+		for _, x := range c.tunnels {
+			ts = append(ts, x)
+		}
+		var rs []*tunnelRunner
+		for _, r := range c.runners {
+			rs = append(rs, r)
+		}
+		c.mu.RUnlock()
+		for _, r := range rs {
+			r.Stop()
+		}
+		_ = ts
+	}()
+	var wires [][]byte
+	send := func(wire []byte) {
+		pkt := &dataplane.ParsedPacket{
+			Protocol: models.ProtocolL2TP,
+			IPv4:     &layers.IPv4{SrcIP: peer, DstIP: local},
+			UDP:      &layers.UDP{SrcPort: 1701, DstPort: 1701},
+		}
+		pkt.UDP.Payload = wire
+		_ = c.Dispatch(pkt)
+	}
+	ourTunnel := func() uint16 { // the local id of the (first) tunnel of this control connection
+		c.mu.RLock()
+		defer c.mu.RUnlock()
+		id := uint16(0)
+		for _, x := range c.tunnels {
+			if id == 0 || x.LocalID < id {
+				id = x.LocalID
+			}
+		}
+		return id
+	}
+	state := func() string {
+		c.mu.RLock()
+		nt, ns := len(c.tunnels), 0
+		var ts []*Tunnel
+		for _, x := range c.tunnels {
+			ts = append(ts, x)
+		}
+		c.mu.RUnlock()
+		for _, x := range ts {
+			x.mu.Lock()
+			ns += len(x.Sessions)
+			x.mu.Unlock()
+		}
+		mu.Lock()
+		nd := len(seen)
+		mu.Unlock()
+		return fmt.Sprintf("T%dS%dD%d", nt, ns, nd)
+	}
+	var out []string
+	peerNs := uint16(0)
+	tid := uint16(0)
+	if f[0] == "lac" {
+		if err := c.StartLACSession(LACBringUpRequest{PPPoESessionID: 7, LocalIP: local,
+			TunnelSpecs: []TunnelSpec{{ServerIP: peer}}}); err != nil {
+			return "lac-start-failed"
+		}
+		tid = ourTunnel()
+		out = append(out, state())
+	}
+	for _, st := range f[1:] {
+		if len(st) > 1 && st[0] == 'r' {
+			k, _ := strconv.Atoi(st[1:])
+			if k < len(wires) {
+				send(wires[k])
+			}
+			out = append(out, state())
+			continue
+		}
+		var body []byte
+		sid := uint16(0)
+		switch st {
+		case "sccrq":
+			body = l2tppkt.BuildSCCRQ(l2tppkt.SCCRQParams{HostName: "lac", LocalTunnelID: 99, ReceiveWindowSize: 16, FramingCaps: 3})
+		case "sccrp":
+			body = l2tppkt.BuildSCCRP(l2tppkt.SCCRPParams{LocalTunnelID: 99, ReceiveWindowSize: 16, HostName: "lns", FramingCaps: 3})
+		case "scccn":
+			body = l2tppkt.BuildSCCCN(nil)
+		case "icrq":
+			body = l2tppkt.BuildICRQ(l2tppkt.ICRQParams{LocalSessionID: 70 + peerNs, CallSerialNumber: uint32(peerNs)})
+		case "icrp":
+			body = l2tppkt.BuildICRP(l2tppkt.ICRPParams{LocalSessionID: 50})
+			sid = 1
+		case "iccn":
+			body = l2tppkt.BuildICCN(l2tppkt.ICCNParams{TxConnectSpeed: 1000, Framing: 1})
+			sid = 1
+		case "cdn":
+			body = l2tppkt.BuildCDN(50, 1, 0, "")
+			sid = 1
+		case "hello":
+			body = l2tppkt.BuildHello()
+		case "stop":
+			body = l2tppkt.BuildStopCCN(99, 1, 0, "")
+		default:
+			out = append(out, "badstep")
+			continue
+		}
+		mu.Lock()
+		nr := lastNs
+		mu.Unlock()
+		hdrTid := tid
+		if st == "sccrq" {
+			hdrTid = 0
+		}
+		h := l2tppkt.NewControl(hdrTid, sid, peerNs, nr)
+		wire := append(h.AppendTo(nil, len(body)), body...)
+		wires = append(wires, wire)
+		peerNs++
+		send(wire)
+		if tid == 0 {
+			tid = ourTunnel()
+		}
+		out = append(out, state())
+	}
+	return "estab " + strings.Join(out, " ")
+}
+
 func vfDispGuard(line string) string {
 	done := make(chan string, 1)
 	go func() {
@@ -722,6 +873,8 @@ func vfDispGuard(line string) string {
 		f := strings.Fields(line)
 		if len(f) >= 2 && f[0] == "disp" {
 			done <- vfDispCase(f[1:])
+		} else if len(f) >= 2 && f[0] == "estab" {
+			done <- vfEstabCase(f[1:])
 		} else if len(f) >= 2 && f[0] == "runner" {
 			done <- vfRunnerCase(f[1:])
 		} else if len(f) == 2 && f[0] == "idle" {
